@@ -251,6 +251,36 @@ func runC02(c *Ctx) {
 			}
 		}
 	}
+	// artifact entry point, the inner Response's and Assertion's instants under a verified ArtifactResponse signature
+	for _, signAR := range []bool{true, false} {
+		for pos := 0; pos < 5; pos++ {
+			for _, kk := range []int{0, 1, 4} {
+				n++
+				N := now0 / ms * ms
+				far := int64(10 * time.Hour)
+				rs, as := validSpecs(cfg, N, fmt.Sprintf("arin%d", n))
+				v := [5]int{2, 2, 2, 2, 2}
+				v[pos] = kk
+				rs.Issue = sp(fmtMS(lat(N-cfg.MaxIssueDelay, true, v[0], far)))
+				as.Issue = fmtMS(lat(N-cfg.MaxIssueDelay, true, v[1], far))
+				as.NB = sp(fmtMS(lat(N+cfg.MaxClockSkew, false, v[2], far)))
+				as.NOA = sp(fmtMS(lat(N-cfg.MaxClockSkew, true, v[3], far)))
+				as.Confs[0].NOA = sp(fmtMS(lat(N-cfg.MaxClockSkew, true, v[4], far)))
+				a := buildAssertion(as)
+				if !signAR {
+					SignInto(a, 0)
+				}
+				ars := RespSpec{Tag: "ArtifactResponse", ID: fmt.Sprintf("ar-in-%d", n), IRT: sp("resolve-1"), Issue: sp(fmtMS(N)), Issuer: sp(cfg.IdpEntity), Status: sp(statusSuccess)}
+				ar := buildResponse(ars, buildResponse(rs, a))
+				if signAR {
+					SignInto(ar, 0)
+				}
+				c.Count("class/artifact-inner")
+				addRun(c, g, &Run{Cfg: cfg, IDs: []string{"req-1"}, Now: now0, Cur: cfg.AcsURL, Entry: 1, Rid: "resolve-1", Doc: soapWrap(ar)},
+					map[string]string{"class": "artifact-inner", "lattice": fmt.Sprint(v), "ar_signed": fmt.Sprint(signAR)}, false)
+			}
+		}
+	}
 	c02Lexical(c, g)
 	randomCombinations(c, g, 400, false)
 }
